@@ -208,6 +208,13 @@ class HierDictDocument(DictDocument):
                                         and not cls.validate_string(cls, inst)):
                     raise ValidationError([key, inst])
 
+                if (inst is not None
+                        and issubclass(cls, self.stringified_types)
+                        and not isinstance(inst, (six.text_type,
+                                                             six.binary_type))):
+                    # these are parsed from their text forms
+                    raise ValidationError([key, inst])
+
                 if issubclass(cls, (ByteArray, Uuid)):
                     retval = self.from_serstr(cls, inst, self.binary_encoding)
 
